@@ -10,7 +10,7 @@ CHECKS = {
    technique="Rocq theorems over a Gallina model + differential correspondence (extracted OCaml vs Go)",
    design="7 (C05)"),
  "C06": dict(
-   text="Theorems in Rocq (rocq/Props/C06.v, 33 statements, axiom-free, for ALL strings / all int64 amounts with 0-18 decimals) about the model Num/Codec.v of num/amount.go and num/percentage.go: the repaired reader accepts exactly the members of the published pattern whose value is an int64 with at most 18 decimals and reads them as the exact value with exponent = fraction length (parse_accepts_iff_pattern, parse_rejects_everything_else, parse_never_misreads, JSON variants through unquote), every amount prints as a pattern member and reads back identically (print_matches_pattern, parse_print_roundtrip, also proved of the shipped code for every value except math.MinInt64), percentages re-read to the same value with a stable text, and the exact language of the percentage reader; the defects of the shipped code are *_refuted theorems with computed witnesses. The published patterns are regenerated from JSONSchema() and data/schemas/num/*.json on every run and pinned by reflexivity lemmas. The model is tied to the Go code by running both on ~255k strings (pattern members, every single insertion/deletion/substitution of 14 symbols, digit strings around k*2^63, random bytes, JSON tokens) through UnmarshalText, UnmarshalJSON bare and quoted and a struct field via encoding/json, and on 100k amounts through String/MarshalText/json.Marshal/MinimalString and back; Go's outputs are also judged directly by an independent Python reading of the property.",
+   text="Theorems in Rocq (rocq/Props/C06.v, 35 statements, axiom-free, for ALL strings / all int64 amounts with 0-18 decimals) about the model Num/Codec.v of num/amount.go and num/percentage.go: the repaired reader accepts exactly the members of the published pattern whose value is an int64 with at most 18 decimals and reads them as the exact value with exponent = fraction length (parse_accepts_iff_pattern, parse_rejects_everything_else, parse_never_misreads, JSON variants through unquote), every amount prints as a pattern member and reads back identically (print_matches_pattern, parse_print_roundtrip, also proved of the shipped code for every value except math.MinInt64), percentages re-read to the same value with a stable text, and the exact language of the percentage reader; the defects of the shipped code are *_refuted theorems with computed witnesses. The published patterns are regenerated from JSONSchema() and data/schemas/num/*.json on every run and pinned by reflexivity lemmas. The model is tied to the Go code by running both on ~255k strings (pattern members, every single insertion/deletion/substitution of 14 symbols, digit strings around k*2^63, random bytes, JSON tokens) through UnmarshalText, UnmarshalJSON bare and quoted and a struct field via encoding/json, and on 100k amounts through String/MarshalText/json.Marshal/MinimalString and back; Go's outputs are also judged directly by an independent Python reading of the property.",
    note="Until fixes/C06-1-strict-amount-parse.diff is applied the correspondence runs against the model of the code AS SHIPPED and the three defect classes it repairs are KNOWN findings with narrow matchers (findings/C06.json); moving those entries to 'fixed' switches the correspondence to the repaired model. Known findings by design: percentage text without % / empty, the text null, JSON escapes, percentages beyond 2^52 (float64). Trusted: Coq kernel, extraction, OCaml driver, Go harness, Python judge. Modelled not verified: fmt %d/%0*d and strconv.ParseInt (tied by the correspondence), float64 path of percentages (exact in the model, C05's 2^52 guard), encoding/json tokenizer (struct-field route judged by the Python oracle only).",
    technique="Rocq theorems over a Gallina model + differential correspondence (extracted OCaml vs Go) + independent oracle on the implementation's outputs",
    design="7 (C06)"),
